@@ -204,6 +204,15 @@ func init() {
 			for j := 1; j < k; j++ { // a roughly straight, densely sampled line
 				p[j] = [2]int{p[j-1][0] + dx + c.rng.Intn(3) - 1, p[j-1][1] + dy + c.rng.Intn(3) - 1}
 			}
+			leaves := false // the cover is recorded relative to the 3x3 window: the line has to stay inside it
+			for _, q := range p {
+				if q[0] < 64 || q[1] < 64 || q[0] > 3*8192-64 || q[1] > 3*8192-64 {
+					leaves = true
+				}
+			}
+			if leaves {
+				continue
+			}
 			if i%4 == 0 && k >= 4 {
 				tri := [][2]int{p[0], {p[0][0] + 1 + c.rng.Intn(maxStep+1), p[0][1]}, {p[0][0], p[0][1] + 1 + c.rng.Intn(maxStep+1)}}
 				c14Poly(c, wn, [][][2]int{tri}, "Polygon")
